@@ -668,7 +668,19 @@ pub fn predictor_builders() -> Vec<(&'static str, Builder)> {
         let d = make_data(seed, 90, 8, false);
         let ds = DatasetBase::from(d.x.clone());
         let m = Pca::params(2).fit(&ds).map_err(es)?;
-        Ok(sub2!("pca-f64", m, 8, false, f64c(), f64))
+        Ok(sub2!("pca-f64", m, 8, false, f64c(), f64, |m: &Pca<f64>, x: &Array2<f64>| {
+            let z: Array2<f64> = m.predict(x);
+            vec![("inverse_transform(predict)".to_string(), rows_of(&m.inverse_transform(z)))]
+        }))
+    }));
+    v.push(("pca-whitened-12-features", |seed| {
+        let d = make_data(seed, 60, 12, false);
+        let ds = DatasetBase::from(d.x.clone());
+        let m = Pca::params(3).whiten(true).fit(&ds).map_err(es)?;
+        Ok(sub2!("pca-whitened-12-features", m, 12, false, f64c(), f64, |m: &Pca<f64>, x: &Array2<f64>| {
+            let z: Array2<f64> = m.predict(x);
+            vec![("inverse_transform(predict)".to_string(), rows_of(&m.inverse_transform(z)))]
+        }))
     }));
     v.push(("pls-regression", |seed| {
         let d = make_data(seed, 80, 5, false);
